@@ -43,7 +43,7 @@ def rule(tier):
 def floors(tier):
     z = sizes(tier)
     return {"evaluations": int(z["trees"] * .95), "distinct": int(z["trees"] * (.6 if tier == "quick" else .5)),
-            "counters": {"formulas_read_reloaded": int(z["trees"] * .95), "formulas_read_open": 500, "trees_equal": int(z["trees"] * .9), "double_reads": 500,
+            "counters": {"formulas_read_reloaded": int(z["trees"] * .95), "formulas_read_open": 500, "trees_equal": int(z["trees"] * .9), "double_reads": 500, "same_expression_at_two_hosts_of_a_row": 100,
                          "exhaustive_small": 1500},
             "hist_sizes": {"function": 250, "node_kind": 20}}
 
@@ -117,7 +117,7 @@ def dec_tree(e):
     raise ValueError(k)
 
 
-def run_doc(trees, rec, tag, collect=None):
+def run_doc(trees, rec, tag, collect=None, ctx=None):
     """trees: list of (tree, host (r,c)) with distinct hosts inside a 10x8 table.  Attach all, read a
     sample open, save, reopen, read all twice, parse, compare."""
     from numbers_parser import Document
@@ -145,7 +145,7 @@ def run_doc(trees, rec, tag, collect=None):
         return
 
     def read(table, r, c, view, tree):
-        case = {"part": "tree", "tree": enc_tree(tree), "host": [r, c]}
+        case = {"part": "tree", "tree": enc_tree(tree), "host": [r, c], **({"ctx": ctx} if ctx else {})}
         with warnings.catch_warnings(record=True) as w:
             warnings.simplefilter("always")
             try:
@@ -186,7 +186,7 @@ def run_doc(trees, rec, tag, collect=None):
             os.remove(path)
     t2 = doc2.sheets[0].tables[0]
     for tree, (r, c) in trees:
-        case = {"part": "tree", "tree": enc_tree(tree), "host": [r, c]}
+        case = {"part": "tree", "tree": enc_tree(tree), "host": [r, c], **({"ctx": ctx} if ctx else {})}
         text = read(t2, r, c, "reloaded", tree)
         rec.count("formulas_read_reloaded")
         if text is None:
@@ -255,18 +255,67 @@ def gen_trees(rng, n, depth, fids):
     return out
 
 
-def run_random(spec, rec):
+def shift_refs(t, dc):
+    """The tree whose same-table references all point dc columns further right; None if one would leave the table."""
+    if t is None:
+        return None
+    k = t[0]
+    if k == "ref":
+        if t[1][1] + dc < 0:
+            raise ValueError
+        return ("ref", (t[1][0], t[1][1] + dc)) + tuple(t[2:])
+    if k == "bin":
+        return ("bin", t[1], shift_refs(t[2], dc), shift_refs(t[3], dc))
+    if k in ("neg", "pct"):
+        return (k, shift_refs(t[1], dc))
+    if k == "fn":
+        return ("fn", t[1], [shift_refs(a, dc) for a in t[2]]) + tuple(t[3:])
+    if k == "paren":
+        return ("paren", [shift_refs(x, dc) for x in t[1]])
+    if k == "arr":
+        return ("arr", [[shift_refs(x, dc) for x in row] for row in t[1]])
+    return t
+
+
+def doc_batches(spec):
+    """[(j, [(tree, host)])] of one stream, regenerated from (seed, stream) alone - a witness names its document by j."""
     from vf.ref import formula as F
     rng = random.Random(f"C08-{spec['seed']}-{spec['stream']}")
     fids = function_ids()
     trees = gen_trees(rng, spec["n"], spec["depth"], fids)
     per = spec["per_doc"]
+    out = []
     for j in range(0, len(trees), per):
         batch = trees[j:j + per]
         hosts = rng.sample(HOSTS, len(batch)) if len(batch) <= len(HOSTS) else None
         if hosts is None:
             hosts = [(i // 8, i % 8) for i in range(len(batch))]
-        run_doc(list(zip(batch, hosts)), rec, f"{spec['stream']}-{j}")
+        pairs = list(zip(batch, hosts))
+        # the same stored expression under one formula key at two hosts of one row (a formula filled to the right): the
+        # relative references of the copy denote cells shifted with the host
+        taken = set(hosts)
+        for tree, (r, c) in list(pairs):
+            if "ref" not in F.kinds_of(tree) or rng.random() > .25:
+                continue
+            free = [c2 for c2 in range(8) if (r, c2) not in taken]
+            if not free:
+                continue
+            c2 = rng.choice(free)
+            try:
+                pairs.append((shift_refs(tree, c2 - c), (r, c2)))
+                taken.add((r, c2))
+            except ValueError:
+                pass
+        out.append((j, pairs, trees[j:j + per]))
+    return out, trees
+
+
+def run_random(spec, rec):
+    from vf.ref import formula as F
+    batches, trees = doc_batches(spec)
+    for j, pairs, batch in batches:
+        rec.count("same_expression_at_two_hosts_of_a_row", len(pairs) - len(batch))
+        run_doc(pairs, rec, f"{spec['stream']}-{j}", ctx={"seed": spec["seed"], "stream": spec["stream"], "n": spec["n"], "depth": spec["depth"], "per_doc": spec["per_doc"], "j": j})
     for t in trees:
         ks = F.kinds_of(t)
         for k in ks:
@@ -359,6 +408,12 @@ def run_shard(spec, rec):
 def replay(case, rec):
     if case.get("part") == "tree":
         run_doc([(dec_tree(case["tree"]), tuple(case["host"]))], rec, "replay")
+        if case.get("ctx"):
+            # what a read returns may depend on the other formulas of the document and on the order of reads: rebuild the whole document
+            batches, _ = doc_batches(case["ctx"])
+            for j, pairs, _b in batches:
+                if j == case["ctx"]["j"]:
+                    run_doc(pairs, rec, "replay-doc", ctx=case["ctx"])
         rec.case(repr(case["tree"]))
     elif case.get("part") == "doc":
         trees = [dec_tree(t) for t in case["trees"]]
